@@ -525,6 +525,12 @@ def run(chk, db, tier):
     chk.guard("R4", rule_r4, db)
     chk.guard("R5", rule_r5, db)
     chk.guard("R6", rule_r6, db)
+    # prerequisite for "names the same bucket and key for every legal key": the validators run on the very values that are stored
+    from . import c12
+    from ..report import Sub
+    sub = Sub(chk, "C12", only=lambda key: key.startswith("CopySource"))
+    sub.rule("R3", "CopySource::parse stores a bucket and key that passed check_bucket_name / check_key as those same (decoded) values")
+    sub.guard("R3", c12.rule_copysource, db)
 
 
 META = {
